@@ -219,7 +219,7 @@ class Ctx:
       return False
     return True
 
-  def audit(self, module: str, theorems, files):
+  def audit(self, module: str, theorems, files, pin=False):
     """Source audit + `#print axioms` of every indexed theorem of `module`."""
     for f in files:
       src = strip_lean_comments(open(os.path.join(LEAN, f)).read())
@@ -250,7 +250,7 @@ class Ctx:
     sigs = dict(re.findall(r'SIG (\S+) (\d+)', txt))
     self.sigs_seen = getattr(self, 'sigs_seen', {})
     self.sigs_seen.update(sigs)
-    pinned = load_sigs(self.pid)
+    pinned = load_sigs(self.pid) if pin else None   # only the indexed property theorems are pinned (Ctx.lean)
     if pinned is not None:
       for t in sorted(set(pinned) - set(theorems)):
         self.breaks.append(dict(kind='proof', name=t, detail='theorem is pinned in the .sig file but no longer indexed '
@@ -283,7 +283,7 @@ class Ctx:
     ok = self.lean_build(list(gen_targets) + [module, 'dinodrv'])
     files = [module.replace('.', '/') + '.lean'] + list(extra_files)
     if ok:
-      self.audit(module, theorems, files)
+      self.audit(module, theorems, files, pin=True)
     else:
       for t in theorems:
         self.obligations.append(dict(name=t, kind='theorem', ok=False, detail='module does not build'))
